@@ -100,6 +100,8 @@ def configs_for(tree, tier):
 def shard(args) -> Acc:
     if args[0] == "clip":
         return clip_shard(args[1:])
+    if args[0] == "3phase":
+        return three_phase_shard(args[1:])
     tier, n, lo, hi = args
     acc = Acc()
     progs = programs(tier, n)[lo:hi]
@@ -237,6 +239,54 @@ def clip_shard(args) -> Acc:
     return acc
 
 
+# -- 3-phase compositions: build(nones_are_zeros=...) and missing values per phase --------------------------------
+
+
+def three_phase_shard(args) -> Acc:
+    tier = args[0]
+    acc = Acc()
+    trees = [t for t in F.trees(1, leaves=["A", "B"]) if t[0] == "bin" or t[0] == "un"]
+    for t in trees:
+        names = sorted(set(F.leaves_of(t)))
+        base = {n: v for n, v in zip(names, ((3.0, 4.0, 1.0), (-7.0, -6.0, -9.0)))}
+        inputs = [dict(base)]
+        for n in names:
+            for ph in range(3):
+                for enc in MISSING[:2] if tier == "quick" else MISSING:
+                    v = {k: tuple(x) for k, x in base.items()}
+                    v[n] = tuple(enc if i == ph else x for i, x in enumerate(v[n]))
+                    inputs.append(v)
+        for nz_build in (False, True):
+            out = F.run_tree_3phase(t, inputs, nz_build=nz_build)
+            got = dict(out)
+            acc.traces += 1
+            acc.evaluations += len(inputs)
+            acc.transitions += len(inputs)
+            acc.nontrivial += 1
+            acc.counters["programs"] += 1
+            for c in CLAUSES:
+                acc.clauses[c] += 1
+            acc.outcome(f"3phase nz_build={nz_build}")
+            viol = []
+            for k, vals in enumerate(inputs):
+                exp = tuple(F.ref_eval(t, {n: vals[n][ph] for n in names}, {}, nz_build) for ph in range(3))
+                if k not in got:
+                    viol.append(("exactly_one_sample_per_timestamp", {"timestamp": k, "three_phase": True}))
+                elif any((g is None) != (e is None) for g, e in zip(got[k], exp)):
+                    viol.append(("none_exactly_when_input_missing_or_result_undefined",
+                                 {"timestamp": k, "three_phase": True, "inputs": {n: [None if F.is_missing(x) else x for x in vals[n]] for n in names},
+                                  "got": list(got[k]), "expected": list(exp)}))
+                elif not all(F.close(g, e) for g, e in zip(got[k], exp)):
+                    viol.append(("missing_configured_as_zero_behaves_like_zero_else_value",
+                                 {"timestamp": k, "three_phase": True, "got": list(got[k]), "expected": list(exp)}))
+                if len(viol) >= 3:
+                    break
+            for clause, detail in viol:
+                acc.violation(Violation(clause, {"driver": "three-phase", "tree": t, "shown": F.show(t), "nz_build": nz_build, "tier": tier}, detail))
+    acc.states = acc.traces
+    return acc
+
+
 def _classes(t, detail):
     return ()
 
@@ -265,6 +315,7 @@ def run(tier: str, seed: int, workers: int):
         for lo in range(0, total, step):
             shards.append((tier, n, lo, lo + step))
     shards.append(("clip", tier))
+    shards.append(("3phase", tier))
     if seed:
         import random
 
@@ -276,6 +327,8 @@ def run(tier: str, seed: int, workers: int):
         "timestamp per subset of leaves missing x encoding None / NaN / +inf / -inf over 2-3 base vectors, plus all sign/zero "
         "vectors over {0, 3, -3} (zero divisors, min/max with each operand order); non-trivial = at least one operator",
         "assumptions": [
+            "3-phase compositions: every one-operator tree over two FormulaEngine3Phase leaves, each (leaf, phase) missing in turn, built "
+            "with and without nones_are_zeros",
             "clipper steps are only reachable through FormulaBuilder.push_clipper: four forms x three bound pairs x nones_are_zeros per stream",
             "lock-step delivery of inputs",
             "'configured to treat missing values as zero' = nones_are_zeros on from_receiver for that stream, or on the build() that "
@@ -292,6 +345,9 @@ def _tuplify(t):
 
 
 def replay(case: dict):
+    if case.get("driver") == "three-phase":
+        a = three_phase_shard((case["tier"],))
+        return [(v.clause, v.detail) for v in a.violations.values() if v.case["shown"] == case["shown"] and v.case["nz_build"] == case["nz_build"]]
     if case.get("driver") == "clipper":
         a = clip_shard((case["tier"],))
         return [(v.clause, v.detail) for v in a.violations.values()
